@@ -114,7 +114,10 @@ static std::vector<BodyDef> makeBodies(const std::string& scratch) {
     // input files (written once, read-only afterwards; every thread reads its OWN copy)
     auto mk = [&](const std::string& name, const std::string& choice) { gen::Content c; gen::Layout l; gen::apply(gen::parseChoice(choice), c, l); std::string b = gen::encode(c, l); std::string p = scratch + "/" + name; FILE* f = fopen(p.c_str(), "wb"); fwrite(b.data(), 1, b.size(), f); fclose(f); return p; };
     std::string fA = mk("inA.c3d", "frames=3;events=2"), fA2 = mk("inA2.c3d", "frames=3;events=2"), fB = mk("inB.c3d", "zeros=7;extra=all;values=special"), fC = mk("inC.c3d", "points=3;chans=1;order=paramsFirst");
+    std::string fU = mk("inU.c3d", "points=3;labels=fewer;alabels=fewer;frames=3"), fU2 = mk("inU2.c3d", "points=3;chans=3;labels=fewer;alabels=fewer");
     std::vector<BodyDef> b;
+    b.push_back({"loadsave(U)", [fU](const std::string& d, Digest& g) { bodyLoadSave(d, fU, g); }});
+    b.push_back({"loadsave(U')", [fU2](const std::string& d, Digest& g) { bodyLoadSave(d, fU2, g); }});
     b.push_back({"loadsave(A)", [fA](const std::string& d, Digest& g) { bodyLoadSave(d, fA, g); }});
     b.push_back({"loadsave(A')", [fA2](const std::string& d, Digest& g) { bodyLoadSave(d, fA2, g); }});
     b.push_back({"loadsave(B)", [fB](const std::string& d, Digest& g) { bodyLoadSave(d, fB, g); }});
@@ -171,7 +174,7 @@ int main(int argc, char** argv) {
     bool thorough = tier == "thorough";
     std::vector<BodyDef> defs = makeBodies(scratch);
     auto idx = [&](const std::string& n) { for (size_t i = 0; i < defs.size(); ++i) if (defs[i].name == n) return (int)i; return -1; };
-    std::vector<std::vector<int>> groups = {{idx("loadsave(A)"), idx("loadsave(A')")}, {idx("loadsave(A)"), idx("build(0)")}, {idx("build(0)"), idx("build(1)")}, {idx("loadsave(B)"), idx("edit(C)")}};
+    std::vector<std::vector<int>> groups = {{idx("loadsave(U)"), idx("loadsave(U')")}, {idx("loadsave(A)"), idx("loadsave(A')")}, {idx("loadsave(A)"), idx("build(0)")}, {idx("build(0)"), idx("build(1)")}, {idx("loadsave(B)"), idx("edit(C)")}};
     if (thorough) { groups.push_back({idx("edit(C)"), idx("build(1)")}); groups.push_back({idx("loadsave(A)"), idx("loadsave(B)")}); groups.push_back({idx("loadsave(A)"), idx("build(0)"), idx("edit(C)")}); }
     auto jstr = [](const std::string& s) { std::string o = "\""; for (unsigned char ch : s) { if (ch == '"' || ch == '\\') { o += '\\'; o += (char)ch; } else if (ch == '\n') o += "\\n"; else if (ch < 32 || ch > 126) o += '?'; else o += (char)ch; } return o + "\""; };
     auto groupName = [&](const std::vector<int>& g) { std::string s; for (int b : g) { if (!s.empty()) s += " || "; s += defs[(size_t)b].name; } return s; };
@@ -192,7 +195,7 @@ int main(int argc, char** argv) {
         const auto& g = groups[gi]; int n = (int)g.size();
         for (int first = 0; first < n; ++first) S.push_back({(int)gi, first, {}});                                         // 0 preemptions: every thread order (others follow in index order)
         for (int t = 0; t < n; ++t) for (int to = 0; to < n; ++to) if (to != t) for (uint64_t k = 1; k <= fineN[(size_t)g[(size_t)t]]; ++k) S.push_back({(int)gi, t, {{t, false, k, to}}});   // 1 preemption at every fine point
-        if (n == 2 && (thorough || gi == 0 || gi == 2)) for (int t = 0; t < 2; ++t) { int u = 1 - t; for (uint64_t i = 1; i <= coarseN[(size_t)g[(size_t)t]]; ++i) for (uint64_t j = 1; j <= coarseN[(size_t)g[(size_t)u]]; ++j) S.push_back({(int)gi, t, {{t, true, i, u}, {u, true, j, t}}}); }   // 2 preemptions over coarse points
+        if (n == 2 && (thorough || gi == 1 || gi == 3)) for (int t = 0; t < 2; ++t) { int u = 1 - t; for (uint64_t i = 1; i <= coarseN[(size_t)g[(size_t)t]]; ++i) for (uint64_t j = 1; j <= coarseN[(size_t)g[(size_t)u]]; ++j) S.push_back({(int)gi, t, {{t, true, i, u}, {u, true, j, t}}}); }   // 2 preemptions over coarse points
     }
     auto schedText = [&](const Sched& s) { std::string t = "group=" + std::to_string(s.pair) + ";first=" + std::to_string(s.first); for (auto& p : s.plan) t += ";preempt(t" + std::to_string(p.tid) + (p.coarse ? ",coarse#" : ",fine#") + std::to_string(p.at) + "->t" + std::to_string(p.to) + ")"; return t; };
     if (!one.empty()) {
